@@ -15,6 +15,7 @@ from unittest import mock
 from . import common as C
 from . import reply_common as R
 from . import vsim
+from . import wiregen as W
 
 TRACE = True
 TRUSTED = [
@@ -99,6 +100,11 @@ def run_fmt_stream(ctx, res):
                     lines.append("c11reply %s %s %d %d %s" % (C.b01(unicast), C.b01(us), ident, r.class_, C.b01(r.unique)))
                     exp.append("%d %d %d" % (wid, flags, classes[0]))
                     cases.append(dict(stream="fmt", constructor="unicast" if unicast else "multicast", multicast=not unicast, ucast_source=us, id=ident, rec=C.rec_line(r)))
+                    # ... and the constructor's whole datagram, byte for byte, through C01's encoder model (`c11bytes`)
+                    lines.append(bytes_line(unicast, us, ident, [(q.name, q.type, q.class_, q.unique)], [r], []))
+                    exp.append("ok " + C.hx(data))
+                    cases.append(dict(stream="fmt", constructor="unicast" if unicast else "multicast", multicast=not unicast, ucast_source=us, id=ident,
+                                      rec=C.rec_line(r), bytes=True))
                     if unicast and (wid != ident or flags != 0x8400 or classes[0] >= 0x8000 or qd != (1 if us else 0)):
                         res.violate("C11:unicast-format", "construct_outgoing_unicast_answers(id %d, ucast_source %s): id %d flags %#x questions %d class %#x" % (
                             ident, us, wid, flags, qd, classes[0]), cases[-1])
@@ -112,7 +118,8 @@ def run_fmt_stream(ctx, res):
             res.notes.append("driver unavailable: %s" % ex)
     for i, case in enumerate(cases):
         res.evaluations += 1
-        res.nontriv("fmt/%s/%s" % (case["multicast"], exp[i].split()[2]))
+        if not case.get("bytes"):
+            res.nontriv("fmt/%s/%s" % (case["multicast"], exp[i].split()[2]))
         if model is not None and model[i] != exp[i]:
             res.disagree("c11fmt", case, exp[i], model[i])
 
@@ -174,7 +181,7 @@ def make_host(sim, layout):
         if fam == "4":
             socks.append(vsim.FakeSock(10 + i, ("10.0.%d.1" % i, 5353)))
         else:
-            socks.append(Sock6(10 + i, ("fe80::%d" % (i + 1), 5353, 0, 3 + i)))
+            socks.append(Sock6(10 + i, ("fe80::%d" % (i + 1), 5353, 2 * i, 3 + i)))  # flowinfo 0/2/4, scope id 3/4/5
     for s in socks:
         vsim._sock_host[id(s)] = host
     with mock.patch.object(core, "create_sockets", lambda *a, **k: (None, socks)):
@@ -215,7 +222,7 @@ def run_scenario(seed, sc_no):
         rx_tr = host.transports[rx_i]
         tr = R.Trace(sim, host, uni)
         tr.install()
-        box.update(tr=tr, uni=uni, infos=infos, zc=zc, layout=layout, rx_i=rx_i, rx_v6=rx_v6, lis=rx_tr.protocol, nsocks=len(host.socks), queries=[])
+        box.update(tr=tr, uni=uni, infos=infos, zc=zc, layout=layout, rx_i=rx_i, rx_v6=rx_v6, lis=rx_tr.protocol, nsocks=len(host.socks), socks=list(host.socks), queries=[])
         qid = rng.randrange(1, 60000)
         # flowinfo / scope id of the link-local peers: fixed per peer for the scenario (the listener keys deferred packets by the
         # address string alone, the model by the whole address part of the sockaddr), and in general not the receiving socket's
@@ -476,8 +483,138 @@ def check_trace_O(res, box, case):
                 res.violate("C11:multicast-missing", "%s is owed a multicast reply and none follows within 1.2 s" % uni.describe(rid), dict(case, at_ms=b["t"] - T0))
 
 
+
+# ------------------------------------------------------------------------------------------
+# the socket level (`lean/Zc/Model/ReplyNet.lean`, driver `c11net` / `c11bytes`)
+
+
+def kind_of(r):
+    """which of the responder's seven constructor sites builds a record of this shape (decided from the Python class, the
+    record type and, for pointers, the owner name -- never from the class / cache-flush bits, which are what is compared)"""
+    from zeroconf import _dns as d, const as k
+
+    if isinstance(r, d.DNSNsec):
+        return "nsec"
+    if isinstance(r, d.DNSAddress):
+        return "aaaa" if r.type == k._TYPE_AAAA else "a"
+    if isinstance(r, d.DNSService):
+        return "srv"
+    if isinstance(r, d.DNSText):
+        return "txt"
+    if isinstance(r, d.DNSPointer):
+        return "enum" if r.name == k._SERVICE_TYPE_ENUMERATION_NAME else "ptr"
+    return "-"
+
+
+def erec_line(r):
+    """a library record the way `Wire.Encode.ERecord.parse` reads it (as handed to the encoder: its own TTL, created 0)"""
+    from zeroconf import _dns as d
+
+    head = "%s %d %d %s %d 0" % (W.name_tok(r.name), r.type, r.class_, C.b01(r.unique), int(r.ttl))
+    if isinstance(r, d.DNSAddress):
+        return "%s a %s" % (head, C.hx(r.address))
+    if isinstance(r, d.DNSPointer):
+        return "%s p %s" % (head, W.name_tok(r.alias))
+    if isinstance(r, d.DNSText):
+        return "%s t %s" % (head, C.hx(r.text))
+    if isinstance(r, d.DNSService):
+        return "%s s %d %d %d %s" % (head, r.priority, r.weight, r.port, W.name_tok(r.server))
+    if isinstance(r, d.DNSNsec):
+        return "%s n %s %s" % (head, W.name_tok(r.next_name), C.natlist(r.rdtypes))
+    raise TypeError(type(r))
+
+
+def equestion_line(name, typ, cls, unique):
+    return "%s %d %d %s" % (W.name_tok(name), typ, cls, C.b01(unique))
+
+
+def bytes_line(unicast, us, ident, questions, ans, adds):
+    """driver line `c11bytes`: the reply constructor applied to these records in this order"""
+    return "c11bytes %s %s %d %d%s %d%s %d%s" % (
+        C.b01(unicast), C.b01(us), ident, len(questions), "".join(" " + equestion_line(*q) for q in questions),
+        len(ans), "".join(" " + erec_line(r) for r in ans), len(adds), "".join(" " + erec_line(r) for r in adds))
+
+
+def world_str(box, tr, blocks):
+    """the host as `Driver.C11.pWorld` reads it: sockets, receiving socket, peers behind the address ids, question sections of the
+    received datagrams, constructor site of every record of the universe.  Call after the events were serialised (ids are
+    handed out while serialising)."""
+    socks = box["socks"]
+    parts = [str(len(socks))]
+    for i, s in enumerate(socks):
+        name = s.getsockname()
+        v6 = isinstance(s, Sock6)
+        parts.append("%d %s %d %d" % (i, C.b01(v6), name[2] if v6 else 0, name[3] if v6 else 0))
+    parts.append(str(box["rx_i"]))
+    ip_ids = tr.__dict__.setdefault("ip_ids", {})
+    parts.append(str(len(tr.addr_ids)))
+    for akey, aid in tr.addr_ids.items():
+        ip = akey[0]
+        parts.append("%d %d %s %s" % (aid, ip_ids.setdefault(ip, len(ip_ids) + 1), C.b01(":" in ip),
+                                      "-" if len(akey) == 1 else "%d %d" % (akey[1], akey[2])))
+    qs = {}
+    for b in blocks:
+        if b["kind"] == "rx" and b.get("parsed"):
+            qs.setdefault(tr.data_id(b["data"]), b["parsed"]["questions"])
+    parts.append(str(len(qs)))
+    for did, questions in qs.items():
+        parts.append("%d %d%s" % (did, len(questions), "".join(" " + equestion_line(*q) for q in questions)))
+    parts.append(str(len(tr.uni.recs)))
+    parts += [kind_of(r) for r in tr.uni.recs]
+    return " ".join(parts)
+
+
+def block_phys(tr, box, b):
+    """every datagram of the block as it is on the sockets (same format as the driver's `physStr`): socket index, complete
+    destination sockaddr, raw id / flags, questions with the raw class field, records with the raw class field"""
+    ip_ids = tr.__dict__.setdefault("ip_ids", {})
+    out = []
+    for o in b["outs"]:
+        to = o["to_full"]
+        ip = "g4" if to[0] == R.MDNS else "g6" if to[0] == MDNS6 else "p%d" % ip_ids.setdefault(to[0], len(ip_ids) + 1)
+        fs = "-" if len(to) == 2 else "%d.%d" % (to[2], to[3])
+        try:
+            si = next(i for i, s in enumerate(box["socks"]) if s is o["sock"])
+        except StopIteration:
+            si = -1
+        wid, flags, _qd, _cl, m = raw_classes(o["data"])
+        ans, add = R.split_sections(m)
+        raw = lambda e: e.class_ | (0x8000 if e.unique else 0)
+        qd = "+".join("%s:%d:%d" % (W.name_tok(q.name), q.type, raw(q)) for q in m._questions) or "-"
+        rs = lambda l: ",".join("%d.%d.%d" % x for x in sorted((tr.uni.id(r), r.type, raw(r)) for r in l)) or "-"
+        out.append("%d>%s/%d/%s|%d|%d|%s|%s|%s" % (si, ip, to[1], fs, wid, flags, qd, rs(ans), rs(add)))
+    return " ".join(sorted(out)) or "-"
+
+
+def trace_byte_lines(tr, box, kept):
+    """for every datagram the host sent in a kept block: the `c11bytes` line that rebuilds it from the *query* (id and questions of
+    the first packet the reply is based on, legacy-ness of the source port) and the registry's own record objects in the order
+    they are on the wire; expected: exactly the bytes sent"""
+    from zeroconf._protocol.incoming import DNSIncoming
+
+    parsed_by_data = {b["data"]: b["parsed"] for b in tr.blocks if b["kind"] == "rx" and b.get("parsed")}
+    lines, exp, cases = [], [], []
+    for b in kept:
+        for o in b["outs"]:
+            m = DNSIncoming(o["data"])
+            ans, add = R.split_sections(m)
+            own = lambda l: [tr.uni.recs[tr.uni.id(r)] for r in l]
+            if o["to"][0] in (R.MDNS, MDNS6):
+                lines.append(bytes_line(False, False, 0, [], own(ans), own(add)))
+            else:
+                asm = b.get("asm")
+                first = parsed_by_data.get(asm["datas"][0]) if asm and asm.get("datas") else None
+                if first is None:
+                    continue
+                lines.append(bytes_line(True, asm["port"] != 5353, first["id"], first["questions"], own(ans), own(add)))
+            exp.append("ok " + C.hx(o["data"]))
+            cases.append(dict(at_ms=b["t"] - T0, to=o["to_full"]))
+    return lines, exp, cases
+
+
 def run_trace_stream(ctx, res, n, only=None):
     lines, boxes = [], []
+    blines, bexp, bcases = [], [], []
     todo = only if only is not None else [(ctx["seed"], k) for k in range(n)]
     for (seed, sc_no) in todo:
         box = run_scenario(seed, sc_no)
@@ -495,14 +632,31 @@ def run_trace_stream(ctx, res, n, only=None):
             if "obs" not in b:
                 R.block_line(tr, box["zc"], b)
                 b["obs"] = R.block_obs(tr, b)
-        lines.append("c12run %d %s" % (len(evs), " ".join(evs)))
+        # the socket level: every datagram of every kept block with its socket, complete destination, questions, class fields
+        world = world_str(box, tr, kept)
+        for b in kept:
+            b["phys"] = block_phys(tr, box, b)
+        lines.append("c11net %s %d %s" % (world, len(evs), " ".join(evs)))
+        case0 = {"stream": "tr", "seed": seed, "scenario": sc_no}
+        bl, be, bc = trace_byte_lines(tr, box, kept)
+        blines += bl
+        bexp += be
+        bcases += [dict(case0, **c) for c in bc]
         boxes.append((seed, sc_no, box, kept))
-    model = None
+    model = bmodel = None
     if ctx["driver_ok"]:
         try:
             model = C.run_driver(lines)
+            bmodel = C.run_driver(blines)
         except C.DriverUnavailable as ex:
             res.notes.append("driver unavailable: %s" % ex)
+    if bmodel is not None:
+        res.count("tr:datagrams-byte-exact", len(blines))
+        bad = 0
+        for i, case in enumerate(bcases):
+            if bmodel[i] != bexp[i] and bad < 5:
+                bad += 1
+                res.disagree("c11bytes", dict(case, line=blines[i][:400]), bexp[i][:200], bmodel[i][:200])
     for idx, (seed, sc_no, box, kept) in enumerate(boxes):
         res.count("tr:scenarios")
         # one evaluation = one received datagram whose handling (routing, format) is compared and judged
@@ -515,14 +669,22 @@ def run_trace_stream(ctx, res, n, only=None):
             res.disagree("c11run", case, "exception in a callback: %s" % box["errors"][:2], "no exception")
         if model is not None:
             parts = model[idx].split(" | ")
-            head, mobs = parts[0], parts[1:]
-            if mobs == [""]:
-                mobs = []
+            head, mboth = parts[0], parts[1:]
+            if mboth == [""]:
+                mboth = []
+            mobs = [x.split(" ;; ")[0] for x in mboth]
+            mphys = [x.split(" ;; ")[1] if " ;; " in x else None for x in mboth]
             iobs = [b["obs"] for b in kept]
+            iphys = [b["phys"] for b in kept]
             if not head.startswith("ok") or mobs != iobs:
                 kk = next((j for j, (a, b) in enumerate(zip(mobs, iobs)) if a != b), min(len(mobs), len(iobs)))
                 res.disagree("c11run", dict(case, at_block=kk, at_ms=(kept[kk]["t"] - T0) if kk < len(kept) else None),
                              iobs[kk] if kk < len(iobs) else None, (head, mobs[kk] if kk < len(mobs) else None))
+            elif mphys != iphys:
+                # the logical datagrams agree; what is on the sockets (socket, complete sockaddr, id, flags, questions, class fields) does not
+                kk = next((j for j, (a, b) in enumerate(zip(mphys, iphys)) if a != b), min(len(mphys), len(iphys)))
+                res.disagree("c11net", dict(case, at_block=kk, at_ms=(kept[kk]["t"] - T0) if kk < len(kept) else None),
+                             iphys[kk] if kk < len(iphys) else None, mphys[kk] if kk < len(mphys) else None)
         check_trace_O(res, box, case)
         for (rid, s_, c_, e_) in R.sighting_gaps(tr, maxdelay=0)[:2]:
             res.disagree("sightings", dict(case, at_ms=c_), "cache entry of %s at %d ms: %s" % (tr.uni.describe(rid), c_, e_),
@@ -537,7 +699,7 @@ def run_trace_stream(ctx, res, n, only=None):
                 if b["outs"]:
                     res.nontriv("tr/" + shape + "/" + ",".join(sorted({x[0] for x in b["obs"].split(" ")[0].split(",")})))
         if idx < 2:
-            res.sample({"scenario": sc_no, "blocks": [(b["kind"], b["t"] - T0, b["obs"]) for b in kept[:10]]})
+            res.sample({"scenario": sc_no, "blocks": [(b["kind"], b["t"] - T0, b["obs"], b["phys"]) for b in kept[:10]]})
 
 
 def run(ctx):
